@@ -52,6 +52,7 @@ fn main() {
             println!("model: {} (rounds {})", model.outcome.show(), model.rounds);
             println!("{}", if real == model.outcome { "AGREE" } else { "DISAGREE" });
         }
+        Some("debug-large") => debug_large(),
         Some("prop") => {
             // prop <id> <quick|thorough> <seed> [replay.json]
             let id = args[2].as_str();
@@ -125,4 +126,29 @@ fn replay_case(path: &str) -> (Vec<u8>, detect::Sett) {
         trace: jfield(st, "trace").unwrap() == "true",
     };
     (bytes, sett)
+}
+#[allow(dead_code)]
+pub fn debug_large() {
+    let mut rng = util::Rng::new(99);
+    let b = gen::large_mixed_case(&mut rng, 5);
+    let s = detect::Sett::default();
+    let r = detect::real_detect(&b, &s);
+    println!("unrestricted: {}", &r.show()[..r.show().len().min(600)]);
+    let mut s1 = s.clone();
+    s1.incl = vec!["utf-8".into()];
+    let r1 = detect::real_detect(&b, &s1);
+    println!("restricted: {}", &r1.show()[..r1.show().len().min(600)]);
+    let mut s2 = s.clone();
+    s2.incl = vec!["ascii".into()];
+    s2.fb = false;
+    println!("ascii alone: {}", detect::real_detect(&b, &s2).show());
+    let text = String::from_utf8(b.clone()).unwrap();
+    let nchars = text.chars().count();
+    for k in 0..5 {
+        let chunk: String = text.chars().skip(k * (nchars / 5)).take(512).collect();
+        let coh = charset_normalizer_rs::verif_hooks::coherence_ratio(chunk.clone(), Some(0.1), Some(vec![]));
+        println!("chunk {} starts {:?} coh {:?}", k, chunk.chars().take(30).collect::<String>(), coh.map(|v| v.iter().map(|(l, s)| format!("{}={}", l, s)).collect::<Vec<_>>()));
+    }
+    let step = b.len() / 5;
+    for k in 0..6 { let o = k*step; if o < b.len() { println!("window {} ascii={}", o, b[o..(o+512).min(b.len())].is_ascii()); } }
 }
